@@ -100,7 +100,7 @@ def check(run):
                  "-variants", 2 if quick else 4, "-variants-big", 4 if quick else 8,
                  "-variants-geom", 6 if quick else 10, "-par", 8], timeout=3000)
         stage(name + "-runs")
-        vres = validate_split(tr, name, 1 if quick else 4)
+        vres = validate_split(tr, name, 1 if quick else 8)
         stage(name + "-trace")
         return {"name": name, "tr": tr, "res": json.load(open(res_path)), "vres": vres}
 
@@ -126,7 +126,7 @@ def check(run):
             parts.append((cuts[j], pth))
         outs = parallel([lambda off=off, pth=pth, j=j: (off, validate_traces(
             run, "Rare_Trace", pth, xmx="6g", timeout=3000, label="Rare_Trace (%s family, part %d)" % (name, j))[0])
-            for j, (off, pth) in enumerate(parts)], 4)
+            for j, (off, pth) in enumerate(parts)], 6)
         merged = {"bad": [], "consumed": 0, "done": True}
         for off, v in outs:
             merged["consumed"] += v["consumed"]
@@ -135,8 +135,8 @@ def check(run):
 
     def seeded_family():
         big = os.path.join(run.scratch, "c03-big.ndjson")
-        run.drv(["gen", "-out", big, "-geom", 3 if quick else 24, "-n", 12 if quick else 44, "-min", 800 if quick else 2000,
-                 "-max", 5000 if quick else 100000, "-sched", 2 if quick else 4, "-sched-runs", 4 if quick else 8,
+        run.drv(["gen", "-out", big, "-geom", 3 if quick else 24, "-n", 12 if quick else 28, "-min", 800 if quick else 2000,
+                 "-max", 5000 if quick else 40000, "-sched", 2 if quick else 4, "-sched-runs", 4 if quick else 8,
                  "-paced", 9 if quick else 36, "-paced-runs", 3 if quick else 6])
         return family("seeded", big)
 
